@@ -812,7 +812,7 @@ fn judge_duel(case: &DuelCase, ctx: &mut CaseCtx, w: &World, plan: &[Planned], a
             Some((inst, Some(host))) => finals.push((inst, host)),
             _ => {
                 ctx.violation(
-                    "C08/never-announced",
+                    &sig("C08/never-announced"),
                     format!("daemon D{i} has not announced its service {} s after the last registration\n{}", (t_settled - t_last) / 1000, render(&w)),
                 );
                 return;
